@@ -373,6 +373,34 @@ func keptOnlyAcrossAny(c *Ctx, rule string, fn *ssa.Function, gs []Gate, p *Prog
 			starts = append(starts, s)
 		}
 	}
+	// the other spelling of the filter: accepted elements are appended to the kept slice and a
+	// rejected one is simply skipped (no blanking of KeyPeerId anywhere in the loop) — then
+	// "kept" is the append, which must lie behind the pass edge
+	hasDiscard := false
+	var keeps []ssa.Instruction
+	for b := range loop.Blocks {
+		for _, in := range b.Instrs {
+			if isDiscard(in) {
+				hasDiscard = true
+			}
+			if call, ok := in.(*ssa.Call); ok {
+				if bi, isB := call.Call.Value.(*ssa.Builtin); isB && bi.Name() == "append" {
+					keeps = append(keeps, in)
+				}
+			}
+		}
+	}
+	if !hasDiscard && len(keeps) > 0 {
+		r := Reach(fn, ReachOpts{Starts: starts, Removed: removed})
+		for _, k := range keeps {
+			if r.Reachable(k) {
+				c.Violate(rule, construct, p.Pos(InstrPos(k)), "an element is appended to the kept values without crossing the pass edge of "+strings.Join(names, " ∨ ")+"; witness "+r.Path(p, k))
+				return
+			}
+		}
+		c.Hold(rule, construct, p.Pos(fn.Pos()), "every element appended to the kept values crossed the pass edge of "+strings.Join(names, " ∨ "))
+		return
+	}
 	r := Reach(fn, ReachOpts{Starts: starts, Removed: removed, Cut: isDiscard})
 	hdr := loop.Header.Instrs[0]
 	if r.Reachable(hdr) {
